@@ -347,7 +347,6 @@ def _is_d01(sub, case, v: Violation) -> bool:
 
 
 FINDINGS = [
-    Finding("D01", _is_d01, "h1 with gapped bins and an integer content dtype raises 'cannot convert float NaN to integer'"),
 ]
 
 SUBS = [
